@@ -35,6 +35,9 @@ TraceNext ==
        [] e.ev = "mut"    -> Step(OnMut(led, e, l))
        [] e.ev = "end"    -> Step(OnEnd(led, e, l))
        [] e.ev = "crash"  -> Step(OnCrash(led, e, l))
+       [] e.ev = "conc"   -> Step(OnConc(led, e, l))
+       [] e.ev = "concend" -> Step(OnConc(led, e, l))
+       [] e.ev = "race"   -> Step(OnRace(led, e, l))
        [] OTHER           -> Step(OnQuiet(led, e, l))
 
 TraceSpec == TraceInit /\ [][TraceNext]_vars
